@@ -758,3 +758,38 @@ def utc_cutoff(ctx):
                 elif kind == 'other':
                     ctx.unsure('%s: clock of `%s` not classified' % (qn, src[:60]))
     ctx.floor(n, 1, 'comparisons of stored dates with the clock')
+
+
+@PROP.obligation('C08.reload-zero', canaries=[
+    mut.replace_expr(W, 'WalletTransaction.from_txid', 'inp.sequence is not None', 'inp.sequence', 'a stored sequence of 0 reloads as the default'),
+])
+def reload_zero(ctx):
+    """WalletTransaction.from_txid rebuilds a stored transaction from its rows. A numeric column whose value 0 is a value (sequence,
+    output_n, value, locktime, index_n ... - ids start at 1 and are exempt) is taken over when it is not NULL, never only when it is
+    truthy: `if inp.sequence: sequence = inp.sequence` reloads an input with sequence 0 as 0xffffffff - another serialization and id."""
+    db = ctx.repo.mod('db')
+    numeric = set()
+    for cn, c in db.classes.items():
+        for st in c.body:
+            if isinstance(st, ast.Assign) and isinstance(st.value, ast.Call) and norm(st.value.func) == 'Column' and st.value.args and \
+                    norm(st.value.args[0]).split('(')[0] in ('Integer', 'BigInteger', 'SmallInteger'):
+                numeric |= set(t.id for t in st.targets if isinstance(t, ast.Name))
+    numeric = set(x for x in numeric if not (x == 'id' or x.endswith('_id')))
+    ctx.floor(len(numeric), 15, 'numeric columns')
+    q = W + ':WalletTransaction.from_txid'
+    fn = ctx.repo.func(q)
+    n = 0
+    for i_ in ast.walk(fn):
+        if not isinstance(i_, ast.If):
+            continue
+        t = i_.test
+        if not (isinstance(t, ast.Attribute) and t.attr in numeric):
+            continue
+        for a in ast.walk(ast.Module(body=i_.body, type_ignores=[])):
+            if isinstance(a, ast.Assign) and any(norm(x) == norm(t) for x in ast.walk(a.value)):
+                n += 1
+                ctx.violate(q, '`%s` is taken over only when it is truthy (`if %s: %s`): a stored 0 is replaced by the default' % (norm(t), norm(t), norm(a)[:50]), i_,
+                            'a transaction sent with an input sequence of 0 reloads with 0xffffffff: w.transaction(txid).raw_hex() differs from the stored raw transaction')
+    uses = sum(1 for x in ast.walk(fn) if isinstance(x, ast.Attribute) and x.attr in numeric and isinstance(x.ctx, ast.Load))
+    ctx.saw('%d reads of numeric columns in from_txid, %d of them taken over under a truthiness test of the value itself' % (uses, n))
+    ctx.floor(uses, 10, 'reads of numeric columns')
